@@ -34,6 +34,7 @@ fn probe_program() -> Program {
                 name: n.into(),
                 skipped: false,
                 config: false,
+                compactable: false,
             })
             .collect(),
         docs: vec![],
